@@ -409,7 +409,7 @@ def run_killed(cfg, seed, i, ev):
             return None
         st = []
         for rid in range(cfg["nres"]):
-            p = os.path.join(base, f"r{rid}.json")
+            p = os.path.join(base, f"r{rid}{'x' * int(cfg.get('name_pad', 0))}.json")   # same name as seqsim.World gives it
             try:
                 with seams.REAL["open"](p, "rb") as f:
                     st.append(f.read())
